@@ -31,8 +31,8 @@ import traceback
 from . import shrink as SH
 
 VERIF = os.path.dirname(os.path.dirname(os.path.dirname(os.path.abspath(__file__))))
-REPLAYS = os.path.join(VERIF, 'replays')
-EVIDENCE = os.path.join(VERIF, 'evidence')
+REPLAYS = os.path.join(os.environ['AHRS_SIM_EVIDENCE_DIR'], 'replays') if os.environ.get('AHRS_SIM_EVIDENCE_DIR') else os.path.join(VERIF, 'replays')
+EVIDENCE = os.environ.get('AHRS_SIM_EVIDENCE_DIR') or os.path.join(VERIF, 'evidence')   # scratch runs (mutants) must not overwrite the real evidence
 KNOWN = os.path.join(VERIF, 'known_findings.json')
 MAIN = os.path.join(VERIF, 'sim', 'main.py')
 PY = sys.executable
@@ -62,7 +62,8 @@ def match_known(known, v):
     return None
 
 
-def tree_hash(repo='/repo'):
+def tree_hash(repo=None):
+    repo = repo or os.environ.get('AHRS_SIM_REPO', '/repo')
     h = hashlib.sha256()
     root = os.path.join(repo, 'ahrs')
     for d, dirs, files in sorted(os.walk(root)):
@@ -76,7 +77,8 @@ def tree_hash(repo='/repo'):
     return h.hexdigest()[:16]
 
 
-def repo_head(repo='/repo'):
+def repo_head(repo=None):
+    repo = repo or os.environ.get('AHRS_SIM_REPO', '/repo')
     try:
         return subprocess.run(['git', '-C', repo, 'rev-parse', 'HEAD'], capture_output=True, text=True, timeout=20).stdout.strip()
     except Exception:       # noqa: BLE001
